@@ -36,7 +36,9 @@ def build():
                                   "text": spec.get("level_text", LEVEL_TEXT["default"]),
                                   "design_ref": "DESIGN.md section 5, " + pid},
                 "level_note": "trusted: " + "; ".join(spec.get("assumptions", [])),
-                "technique": spec.get("technique", "TLA+ specification checked by TLC; trace validation of the Rust code against it"),
+                "technique": spec.get("technique", "TLA+ specification checked by TLC; trace validation of the Rust code against it"
+                                      + ("; random calls screened against a naive oracle are forwarded to the same trace validation" if spec.get("hunt") else "")
+                                      + ("; unbounded lemmas of the specification proved with TLAPS (spec/proofs)" if spec.get("proofs") else "")),
             })
         else:
             na.append({"property_id": pid, "reason": PROPS.get(pid, {}).get("disabled", "check not built yet (work in progress)")})
@@ -57,6 +59,9 @@ def build():
             {"name": "tlc-bounded-model-checking", "path": "spec/mc",
              "serves_properties": [c["property_id"] for c in checks if PROPS[c["property_id"]].get("mc")],
              "kind_free_text": "exhaustive TLC runs of the specification for small sizes / word sizes"},
+            {"name": "tlaps-lemmas", "path": "spec/proofs",
+             "serves_properties": [c["property_id"] for c in checks if PROPS[c["property_id"]].get("proofs")],
+             "kind_free_text": "tlapm re-proves the unbounded lemmas the specification relies on where enumeration is out of reach"},
         ],
         "checks": checks,
         "not_applicable": na,
